@@ -1,8 +1,8 @@
 #!/verif/.venv/bin/python
 # Replay of a solver counterexample against the unmodified code (no shims).
-# property=C10 kernel=step label=c10:wait_covers_fall
+# property=C10 kernel=eom_drift label=c10:eom_phase_jump_gap
 import sys
 sys.path[:0] = ["/repo/pulser-core", "/repo/pulser-simulation", "/verif"]
 from symx.replay import replay
-sys.exit(replay(check='checks.c10', kernel='step', shape={'own': {'clock': 1, 'local': False, 'slots': ['pulseA', 'delay'], 'mod': True, 'pj': 'custom', 'targets_a': ['q0'], 'targets_b': ['q1']}, 'op': ['wait_for_fall'], 'maxseq': True, 'nbarriers': 1},
-                assignment={'max_sequence_duration': 2, 'own.min_duration': 1, 'own.tr': 1, 'own.pjt': 0, 'own.s0.dur': 1, 'own.s1.dur': 1, 'buf#1.start': 0, 'buf#1.end': 1, 'buf#2.start': 0, 'buf#2.end': 0}, label='c10:wait_covers_fall'))
+sys.exit(replay(check='checks.c10', kernel='eom_drift', shape={'cfg': {'lim': 'R', 'ctrl': ['B']}, 'program': [['enable', 2.0, 0.0, -1.0], ['eom_pulse', 0.5], ['delay'], ['eom_pulse', 0.5], ['eom_pulse', 0.5], ['delay'], ['delay'], ['eom_pulse', 0.5]], 'custom_buffer': None, 'kmax': 12},
+                assignment={'d1/k': 2, 'd2/k': 2, 'd3/k': 2, 'buf#1.start': 0, 'buf#1.end': 0, 'buf#2.start': 0, 'buf#2.end': 1, 'd4/k': 2, 'buf#3.start': 0, 'buf#3.end': 0, 'buf#4.start': 0, 'buf#4.end': 0, 'd5/k': 2, 'd6/k': 2, 'd7/k': 2, 'buf#5.start': 0, 'buf#5.end': 0, 'buf#6.start': 0, 'buf#6.end': 0}, label='c10:eom_phase_jump_gap'))
